@@ -41,7 +41,7 @@ TruncDiv(a, b) == Sgn(a) * Sgn(b) * (Abs(a) \div Abs(b))
 TruncRem(a, b) == a - TruncDiv(a, b) * b
 \* Python's // and % (floor), written so that no intermediate exceeds the operands
 PyMod(a, b)    == LET r == TruncRem(a, b) IN IF r # 0 /\ ((r < 0) # (b < 0)) THEN r + b ELSE r
-FloorDiv(a, b) == LET q == TruncDiv(a, b) IN IF TruncRem(a, b) # 0 /\ ((a < 0) # (b < 0)) THEN q - 1 ELSE q
+FloorDiv(a, b) == LET q == TruncDiv(a, b) IN IF a - q * b # 0 /\ ((a < 0) # (b < 0)) THEN q - 1 ELSE q
 
 \* declarative characterisations
 IsTruncPair(q, r, a, b) == /\ a = q * b + r /\ Abs(r) < Abs(b) /\ (r = 0 \/ (r < 0) = (a < 0))
@@ -287,21 +287,27 @@ DMDemand(kind, op, a, b) == IF kind = "i" THEN (IF op = "cdiv" THEN TruncDiv(a, 
 DMShadow(kind, op, a, b) == IF kind = "i" THEN (IF op = "cdiv" THEN ShCdiv(a, b) ELSE ShCmod(a, b))
                             ELSE (IF op = "cdiv" THEN ShCdivQ(a, b) ELSE ShCmodQ(a, b))
 DMRow(k, o, a) == [b \in {bb \in DMDom(k) : DMDemanded(k, o, a, bb)} |-> DMDemand(k, o, a, b)]
+\* the row is computed by an action (not in Init) so that TLC's workers share the work
 InitDM == \E k \in (IF Wide THEN {"i"} ELSE {"i", "d"}), o \in {"cdiv", "cmod"} : \E a \in DMDom(k) :
             /\ c = [kind |-> k, op |-> o, a |-> a]
-            /\ LET row == DMRow(k, o, a) IN m = [row |-> row, devs |-> {b \in DOMAIN row : DMShadow(k, o, a, b) # row[b]}]
+            /\ m = [done |-> FALSE, row |-> <<>>, devs |-> {}]
+FillRow == /\ Part = "divmod" /\ ~m.done
+           /\ LET row == DMRow(c.kind, c.op, c.a)
+              IN m' = [done |-> TRUE, row |-> row, devs |-> {b \in DOMAIN row : DMShadow(c.kind, c.op, c.a, b) # row[b]}]
+           /\ UNCHANGED c
+DMDone == Part = "divmod" /\ m.done
 DMDevs == m.devs
 
-RefSound == Part = "divmod" /\ c.kind = "i" /\ c.op = "cdiv" =>
+RefSound == DMDone /\ c.kind = "i" /\ c.op = "cdiv" =>
               \A b \in DMDom("i") \ {0} : /\ IsTruncPair(TruncDiv(c.a, b), TruncRem(c.a, b), c.a, b)
                                           /\ (MulOv(FloorDiv(c.a, b), b) \/ IsFloorPair(FloorDiv(c.a, b), PyMod(c.a, b), c.a, b))
 \* Shadow.cdiv / Shadow.cmod equal C semantics on every integer pair ...
-ShadowIntAgrees == Part = "divmod" /\ c.kind = "i" => DMDevs = {}
+ShadowIntAgrees == DMDone /\ c.kind = "i" => DMDevs = {}
 \* ... and on floats cmod is fmod, while cdiv deviates at least wherever the quotient is not integral (it applies the
 \* integer ceil-division trick `(a + b + 1) // b` to floats: known deviation; the cells are published as `devs`)
-ShadowDblCharacterised == Part = "divmod" /\ c.kind = "d" =>
+ShadowDblCharacterised == DMDone /\ c.kind = "d" =>
               IF c.op = "cmod" THEN DMDevs = {} ELSE \A b \in DOMAIN m.row : m.row[b] % 4 # 0 => b \in DMDevs
-PublishDM == (Dump /\ Part = "divmod") => PrintT("@@" \o ToJson([kind |-> c.kind, op |-> c.op, a |-> c.a, row |-> m.row, devs |-> DMDevs,
+PublishDM == (Dump /\ DMDone) => PrintT("@@" \o ToJson([kind |-> c.kind, op |-> c.op, a |-> c.a, row |-> m.row, devs |-> DMDevs,
                                                                     sh |-> IF c.kind = "d" THEN [b \in DOMAIN m.row |-> DMShadow(c.kind, c.op, c.a, b)] ELSE <<>>]))
 
 (* ---- cast ---- *)
@@ -387,9 +393,9 @@ FallOff == Running /\ m.todo = <<>> /\ Stop(Out("pruned", <<>>, "no-return"), {}
 
 
 -----------------------------------------------------------------------------
-Idle == Part # "prog" /\ UNCHANGED vars
+Idle == Part = "cast" /\ UNCHANGED vars
 Init == CASE Part = "divmod" -> InitDM [] Part = "cast" -> InitCast [] Part = "prog" -> InitProg
-Next == Bind \/ Assign \/ Declare \/ Branch \/ EnterFor \/ ForNext \/ Return \/ FallOff \/ Idle
+Next == Bind \/ Assign \/ Declare \/ Branch \/ EnterFor \/ ForNext \/ Return \/ FallOff \/ FillRow \/ Idle
 Spec == Init /\ [][Next]_vars
 
 ProgsWellFormed == Part = "prog" /\ m.steps = 0 => WFProg(P)
